@@ -24,6 +24,7 @@ import GraphiqModel.Proofs.CompareRepairDirect
 import GraphiqModel.Proofs.CompareRepairEquiv
 import GraphiqModel.Proofs.CompareRepairComplete
 import GraphiqModel.Proofs.CompareRepairSearch
+import GraphiqModel.Proofs.CompareRepairExact
 namespace Graphiq.C15
 open Graphiq Graphiq.Export Graphiq.Compare
 
@@ -443,6 +444,34 @@ theorem original_statements_hold_for_the_repaired_functions :
       rw [← renEq_flatC]
       exact hπ.renEq (flat_opOK _ _ (wellFormed_opOK k (hl k hkl))) (flat_opOK _ _ (wellFormed_opOK x (hl x hx)))
 
+/-- **completeness of the repaired `circuit_is_isomorphic`**: two well-formed circuits that are renamings of each other
+    register by register (`RenamedBy`: equal register counts, a type-preserving bijection `π` of the registers, and on
+    every register — quantum or classical — the same renamed operation sequence) are reported isomorphic, in whatever order
+    operations on different registers were appended.  (The renamed first circuit and the second differ by exchanges of
+    neighbours that share no register; such an exchange only exchanges two node ids of the DAG.) -/
+theorem iso_complete (c1 c2 : Circuit) (h1 : WellFormed c1) (h2 : WellFormed c2) (π : Wire → Wire) (h : RenamedBy π c1 c2) :
+    circuitIsIsomorphic2 c1 c2 = .ok true :=
+  h.reported (wellFormed_opOK c1 h1) (wellFormed_opOK c2 h2)
+
+/-- **the repaired `circuit_is_isomorphic` decides exactly "equal up to a renaming of the registers within each type"**
+    on well-formed circuits (`iso_sound` and `iso_complete` together): the comparison after the repair is neither too
+    coarse (the defect D22′) nor too fine -/
+theorem repaired_comparison_decides_renaming (c1 c2 : Circuit) (h1 : WellFormed c1) (h2 : WellFormed c2) :
+    circuitIsIsomorphic2 c1 c2 = .ok true ↔ ∃ π, RenamedBy π c1 c2 :=
+  iso2_exact c1 c2 (wellFormed_opOK c1 h1) (wellFormed_opOK c2 h2)
+
+/-- hence the answer depends on the second circuit only up to reordering operations that share no register: a circuit
+    with the same registers and the same operation sequence on every register gets the same answer -/
+theorem reordering_does_not_change_the_answer (c1 c2 c2' : Circuit) (h1 : WellFormed c1) (h2 : WellFormed c2)
+    (h2' : WellFormed c2') (hn : c2.ne = c2'.ne ∧ c2.np = c2'.np ∧ c2.nc = c2'.nc)
+    (hw : ∀ w, c2.ops.filter (touches w) = c2'.ops.filter (touches w)) :
+    circuitIsIsomorphic2 c1 c2 = .ok true → circuitIsIsomorphic2 c1 c2' = .ok true := by
+  intro h
+  obtain ⟨π, hπ⟩ := iso_sound c1 c2 h1 h2 h
+  exact iso_complete c1 c2' h1 h2' π
+    ⟨hπ.ne.trans hn.1, hπ.np.trans hn.2.1, hπ.nc.trans hn.2.2, hπ.into, hπ.inj, hπ.surj,
+      fun w hwW => (hw (π w)).symm.trans (hπ.wires w hwW)⟩
+
 /-! ## Non-vacuity -/
 
 /-- H e0; CNOT e0→p0; W[H,P] p0; measure-and-reset e0→p0; identity -/
@@ -495,5 +524,14 @@ example :
 example : IsRenaming (wiresN 2 0 0) (fun w => if w = ⟨.e, 0⟩ then ⟨.e, 1⟩ else if w = ⟨.e, 1⟩ then ⟨.e, 0⟩ else w) ∧
     (⟨2, 0, 0, d22A.ops.map (renOp (fun w => if w = ⟨.e, 0⟩ then ⟨.e, 1⟩ else if w = ⟨.e, 1⟩ then ⟨.e, 0⟩ else w))⟩ : Circuit) = d22A' := by
   refine ⟨⟨?_, ?_, ?_⟩, by decide⟩ <;> decide
+
+/-- the hypotheses of `iso_complete` are met by a pair that is renamed *and* reordered: `H e0; measure e1→c0` against
+    `measure e0→c0; H e1` (emitters exchanged, and the two operations appended in the other order); the kernel evaluates
+    the model to `true` -/
+def reoA : Circuit := ⟨2, 0, 1, [.one .H e0, .meas e1 0]⟩
+def reoB : Circuit := ⟨2, 0, 1, [.meas e0 0, .one .H e1]⟩
+example : WellFormed reoA ∧ WellFormed reoB ∧ circuitIsIsomorphic2 reoA reoB = .ok true := by decide +kernel
+example : RenamedBy (fun w => if w = ⟨.e, 0⟩ then ⟨.e, 1⟩ else if w = ⟨.e, 1⟩ then ⟨.e, 0⟩ else w) reoA reoB := by
+  refine ⟨rfl, rfl, rfl, ?_, ?_, ?_, ?_⟩ <;> decide
 
 end Graphiq.C15
